@@ -338,9 +338,22 @@ Section Decode.
     | x :: r => if existsb (Z.eqb x) r then Bad E_OWNED2 x else nodup_z r
     end.
 
+  (* boot block checksum (adf_info.txt 4.1): the 256 longs of the two boot blocks, the checksum long taken as 0, added with
+     end-around carry; stored is the complement *)
+  Fixpoint boot_acc (b : list Z) (i : Z) (n : nat) (acc : Z) : Z :=
+    match n with
+    | O => acc
+    | S m => let w := if i =? 4 then 0 else u32 b i in
+             let t := acc + w in
+             boot_acc b (i + 4) m (if 2 ^ 32 <=? t then t - 2 ^ 32 + 1 else t)
+    end.
+  Definition boot_sum_ok (b01 : list Z) : bool := (2 ^ 32 - 1 - boot_acc b01 0 256 0 =? u32 b01 4).
+
   Definition decode (strict : bool) : res afs :=
     let b0 := B 0 in
     _ <-- check ((u8 b0 0 =? 68) && (u8 b0 1 =? 79) && (u8 b0 2 =? 83) && (flavour <=? 7)) E_BOOT 0 ;;;
+    (* a disk that carries boot code: the Rootblock field is 880 (DD and HD alike) and the boot checksum verifies *)
+    _ <-- check ((u8 b0 12 =? 0) || ((u32 b0 8 =? 880) && boot_sum_ok (b0 ++ B 1))) E_BOOT 8 ;;;
     let rootb := n / 2 in
     _ <-- check (in_range rootb) E_ROOT rootb ;;;
     let r := B rootb in
